@@ -14,6 +14,28 @@ def run(rep, tier, seed):
         npairs += np_
         for key, det, replay in outl:
             rep.violation(f"{pid}:{key}", det[:500], replay)
+    # every pair of small tree shapes (same pre-order label sequence, different nesting, ...)
+    import os
+    from harness.common import run_tlc, SPEC, MachineryError, workdir
+    from harness.c09 import load_log_all
+    wd = workdir(pid, "shapes", wipe=True)
+    shapes = 0
+    for cfg in (["MC_Shapes.cfg"] if tier == "quick" else ["MC_Shapes.cfg", "MC_Shapes6.cfg"]):
+        out = os.path.join(wd, "shapes.out")
+        r = run_tlc("MC_Shapes", cfg=os.path.join(SPEC, cfg), stdout_path=out, timeout=2400)
+        if not r.ok or r.invariant_violated:
+            raise MachineryError(f"{cfg}: the tree encoding is wrong:\n" + r.out[-1500:])
+        rep.add_tlc(r, cfg + " (all pairs of ordered labelled trees)")
+        c12.G["SH"] = load_log_all(out)["E"]
+        os.remove(out)
+        if not any(e["same"] for e in c12.G["SH"]) or all(e["same"] for e in c12.G["SH"]):
+            raise MachineryError("vacuous shapes")
+        for n, outl, np_ in parallel(c12.w_shapes, range(len(c12.G["SH"]))):
+            shapes += n
+            npairs += np_
+            for key, det, replay in outl:
+                rep.violation(f"{pid}:{key}", det[:500], replay)
+    rep.notes["shape_pairs_compared"] = shapes
     rep.notes["states_compared"] = nS
     rep.notes["ordered_pairs_compared"] = npairs
     e = E[len(E) // 2]
@@ -21,6 +43,6 @@ def run(rep, tier, seed):
     rep.cov["evaluations"] = npairs
     rep.cov["distinct_nontrivial"] = nS
     rep.cov["rule"] = ("every state of MC_Copy (template, copy, after one/two edits anywhere) x every ordered pair of distinct nodes; "
-                       "TLC's TreeEq is the oracle; symmetry follows because both orders are compared with a symmetric operator")
+                       "plus every pair of ordered trees with <= 4 nodes over two names (MC_Shapes; thorough: <= 6 nodes over one name); TLC's TreeEq is the oracle; symmetry follows because both orders are compared with a symmetric operator")
     rep.cov["exhaustive"] = True
     rep.assumptions += ["is_equal is called on distinct node objects only (the statement speaks of distinct trees)"]
